@@ -17,7 +17,7 @@ EXTENDS Integers, Sequences, FiniteSets, TLC, Json, CSV, IOUtils
 CONSTANTS StackSize, FrameSize
 
 Kinds == {"div0", "mod0", "shiftneg", "index", "slice", "notcallable", "nargs", "gopanic", "gopanic-nil", "throw",
-          "framelimit", "stacklimit", "wideexpr", "notiterable", "setindex", "setselector", "spread", "builtin-type"}
+          "framelimit", "stacklimit", "wideexpr", "framelimit-catch", "notiterable", "setindex", "setselector", "spread", "builtin-type"}
 Ctxs  == {"plain", "try-catch", "try-finally", "catch-rethrow", "callback", "callback-try",
           \* the failure strikes on a child VM (pooled or not) that has its own handler, or on a child VM the
           \* host starts after Run returned: a child VM recovers exactly like the VM it was made for
@@ -63,7 +63,7 @@ Outcome == IF err = "caught" THEN "value" ELSE "error"
 Matrix == {[kind |-> k, ctx |-> x, depth |-> d,
             \* near a limit the VM may report the limit instead of the failure: only totality is required there
             \* (the same holds for the two limit kinds themselves: the property allows delivery to a handler or an error from Run)
-            expect |-> IF d # "shallow" \/ k \in {"framelimit", "stacklimit", "wideexpr"} THEN "value-or-error"
+            expect |-> IF d # "shallow" \/ k \in {"framelimit", "stacklimit", "wideexpr", "framelimit-catch"} THEN "value-or-error"
                        ELSE IF x \in {"try-catch", "try-finally", "callback-try", "try-in-callback", "try-in-callback-unpooled"} THEN (IF x = "try-finally" THEN "error-after-finally" ELSE "value")
                        ELSE "error"] : k \in Kinds, x \in Ctxs, d \in Depths}
 ASSUME CSVWrite("%1$s", <<ToJson(Matrix)>>, IOEnv.OUT)
